@@ -1174,7 +1174,7 @@ Section McSearch.
     Local Notation run_from_statesM := (run_from_states so teqb tgt0 teq0 t0 clock ps_eqb handler DS mc_rand ds_of tr_cmp).
 
     Corollary run_from_states_staged ord sys starts s2s sys' stat coll ss' :
-      wf_sys sys -> Stages cb sys (sort_starts tr_cmp (ord starts)) s2s -> (forall s2, In s2 s2s -> StageOK s2) ->
+      wf_sys sys -> Stages cb sys (sort_starts so tr_cmp (ord starts)) s2s -> (forall s2, In s2 s2s -> StageOK s2) ->
       run_from_statesM ord cf pr sys cb starts = Ok (sys', ROk stat coll, ss') ->
       sys' = sys /\
       (forall s2, In s2 s2s -> forall x, ReachM F (get_state s2) x -> exists y, In y (ss_checked ss') /\ veq x y = true) /\
@@ -1186,7 +1186,7 @@ Section McSearch.
       intros W HS HOK H.
       split; [exact (run_from_states_rolls_back _ _ _ _ _ _ _ _ _ _ _ _ _ _ _ _ _ _ _ _ _ W H)|].
       unfold run_from_states in H.
-      destruct (run_startsM cf pr sys cb (sort_starts tr_cmp (ord starts)) (ss_empty mcstate) [] [])
+      destruct (run_startsM cf pr sys cb (sort_starts so tr_cmp (ord starts)) (ss_empty mcstate) [] [])
         as [[[s1 res] ss1]|t] eqn:Er; cbn [bind] in H; [|discriminate].
       destruct (set_state s1 (get_state sys)) as [sx|t]; cbn [bind] in H; [|discriminate].
       injection H as _ -> ->.
@@ -1254,11 +1254,11 @@ Section McSearch.
       CollUM (ss_checked ss') coll.
     Proof.
       intros H. unfold run_from_states in H.
-      destruct (run_startsM cf pr sys cb (sort_starts tr_cmp (ord starts)) (ss_empty mcstate) [] [])
+      destruct (run_startsM cf pr sys cb (sort_starts so tr_cmp (ord starts)) (ss_empty mcstate) [] [])
         as [[[s1 res] ss1]|t] eqn:Er; cbn [bind] in H; [|discriminate].
       destruct (set_state s1 (get_state sys)) as [sx|t]; cbn [bind] in H; [|discriminate].
       injection H as _ -> ->.
-      destruct (run_starts_stats cf cb (sort_starts tr_cmp (ord starts)) sys (ss_empty mcstate) [] [] [] s1 stat coll ss'
+      destruct (run_starts_stats cf cb (sort_starts so tr_cmp (ord starts)) sys (ss_empty mcstate) [] [] [] s1 stat coll ss'
                   eq_refl eq_refl (CollU_nil mcstate veq (pr_collect pr)) Er)
         as (Cn & E & T1 & T0 & U & _).
       cbn [ss_empty ss_checked] in E. rewrite app_nil_r in E. rewrite app_nil_r in U. subst Cn.
